@@ -472,7 +472,7 @@ def load_builders(path, root=None):
                 b.commit_local += 1
         for m in A.find(fn["body"], "Macro"):
             if m.get("name") in ("assert", "assert_ne", "assert_eq"):
-                b.asserts.append(A.unparse(m).replace(" ", ""))
+                b.asserts.append(A.ftxt(m))
         if b.blocks or b.helper_calls:
             key = b.name
             if fn.get("_mods") and any(x.startswith("{") for x in fn["_mods"]):
